@@ -43,6 +43,7 @@ type Contract struct {
 	Preserves  []string       // for dynamically dispatched callees: everything except these may change
 	ModObj     []*ModObjEntry // object-restricted frame entries: "Type.field@expr"
 	LoopInv    map[int][]*Clause
+	LoopBack   map[int][]*Clause // asserted at every back edge of the loop (end of an iteration), never assumed
 	LoopMod    map[int][]string
 	Sites      []*SiteClause
 	Inline     bool
@@ -220,7 +221,7 @@ func (e *Engine) LoadContracts(path string, external bool) error {
 		switch {
 		case kw == "func":
 			key := e.qualify(pkg, rest)
-			cur = &Contract{Key: key, Pkg: pkg, LoopInv: map[int][]*Clause{}, LoopMod: map[int][]string{}, External: external,
+			cur = &Contract{Key: key, Pkg: pkg, LoopInv: map[int][]*Clause{}, LoopBack: map[int][]*Clause{}, LoopMod: map[int][]string{}, External: external,
 				File: rel, Line: rc.line, Tags: map[string]bool{}, Unroll: map[int]int{}}
 			if old, ok := e.contracts[key]; ok {
 				return fmt.Errorf("%s:%d: duplicate contract for %s (first at %s:%d)", rel, rc.line, key, old.File, old.Line)
@@ -363,12 +364,21 @@ func (e *Engine) LoadContracts(path string, external bool) error {
 						cur.Tags[tg] = true
 					}
 					cur.LoopInv[n] = append(cur.LoopInv[n], cl)
+				} else if strings.HasPrefix(rest, "backedge") {
+					cl, err := parseClause(strings.TrimSpace(strings.TrimPrefix(rest, "backedge")), rel, rc.line)
+					if err != nil {
+						return err
+					}
+					for _, tg := range cl.Tags {
+						cur.Tags[tg] = true
+					}
+					cur.LoopBack[n] = append(cur.LoopBack[n], cl)
 				} else if strings.HasPrefix(rest, "modifies") {
 					for _, m := range strings.Split(strings.TrimPrefix(rest, "modifies"), ",") {
 						cur.LoopMod[n] = append(cur.LoopMod[n], strings.TrimSpace(m))
 					}
 				} else {
-					return fmt.Errorf("%s:%d: loop clause must be invariant/modifies", rel, rc.line)
+					return fmt.Errorf("%s:%d: loop clause must be invariant/backedge/modifies", rel, rc.line)
 				}
 			case strings.HasPrefix(kw, "unroll#"):
 				n, _ := strconv.Atoi(strings.TrimPrefix(kw, "unroll#"))
